@@ -36,6 +36,81 @@ func psReachVal(fn *ssa.Function, starts []*ssa.BasicBlock, cut func(from *ssa.B
 
 var psHelperDepth int
 
+// evalArith: the value of an integer expression built from valued atoms and constants with + - * & | ^ << >> and
+// conversions (truncated to the width of unsigned results).
+func evalArith(v ssa.Value, val map[string]int64, d int) (int64, bool) {
+	if d > 8 || v == nil {
+		return 0, false
+	}
+	trunc := func(x int64, t types.Type) int64 {
+		if b, ok := t.Underlying().(*types.Basic); ok {
+			switch b.Kind() {
+			case types.Uint8:
+				return x & 0xff
+			case types.Uint16:
+				return x & 0xffff
+			case types.Uint32:
+				return x & 0xffffffff
+			}
+		}
+		return x
+	}
+	if k, ok := v.(*ssa.Const); ok {
+		if k.Value != nil && k.Value.Kind() == constant.Int {
+			return k.Int64(), true
+		}
+		return 0, false
+	}
+	if val != nil {
+		if r, ok := val[desc(v)]; ok {
+			return r, true
+		}
+	}
+	switch x := v.(type) {
+	case *ssa.Convert:
+		if r, ok := evalArith(x.X, val, d+1); ok {
+			return trunc(r, x.Type()), true
+		}
+	case *ssa.ChangeType:
+		return evalArith(x.X, val, d+1)
+	case *ssa.BinOp:
+		a, okA := evalArith(x.X, val, d+1)
+		b, okB := evalArith(x.Y, val, d+1)
+		if !okA || !okB {
+			return 0, false
+		}
+		var r int64
+		switch x.Op {
+		case token.ADD:
+			r = a + b
+		case token.SUB:
+			r = a - b
+		case token.MUL:
+			r = a * b
+		case token.AND:
+			r = a & b
+		case token.OR:
+			r = a | b
+		case token.XOR:
+			r = a ^ b
+		case token.SHL:
+			if b < 0 || b > 62 {
+				return 0, false
+			}
+			r = a << uint(b)
+		case token.SHR:
+			if b < 0 || b > 62 {
+				return 0, false
+			}
+			r = a >> uint(b)
+		default:
+			return 0, false
+		}
+		return trunc(r, x.Type()), true
+	}
+	return 0, false
+}
+
 // mapAtomTokens: atoms of the caller's valuation that mention argument i (as a whole token: f(assert(p3,T)#0)) are
 // carried into the helper's vocabulary with the argument replaced by the helper's parameter name.
 func mapAtomTokens(hval, val map[string]int64, i int, da string) {
@@ -232,6 +307,11 @@ func psReachValV(fn *ssa.Function, starts []*ssa.BasicBlock, cut func(from *ssa.
 		if val != nil {
 			if r, ok := val[desc(v)]; ok {
 				return r, true
+			}
+			if _, isBin := v.(*ssa.BinOp); isBin {
+				if r, ok := evalArith(v, val, 0); ok {
+					return r, true
+				}
 			}
 			// the integer result of a same-package helper (incl. an instantiated generic one), when the helper
 			// determines a single constant under the valuation carried onto its parameters
